@@ -22,6 +22,8 @@ LEVEL = "proof"
 def plan(ctx):
     k = 8 if ctx.thorough else 1
     return [("hist", "idl", 45 * k, 45), ("hist", "rdl", 45 * k, 45), ("tighten", "idl", 12 * k, 0), ("tighten", "rdl", 12 * k, 0),
+            ("retighten", "idl", 10 * k, 0), ("retighten", "rdl", 10 * k, 0), ("prepend", "idl", 8 * k, 0), ("prepend", "rdl", 8 * k, 0),
+            ("prepend_realsat", "idl", 4 * k, 0), ("prepend_realsat", "rdl", 4 * k, 0),
             ("growth", "idl", 2 * k, 0), ("growth", "rdl", 2 * k, 0), ("realsat", "idl", 20 * k, 40), ("realsat", "rdl", 20 * k, 40)]
 
 
@@ -35,7 +37,9 @@ def run(ctx):
     dl_run.run_check(ctx, "C10", plan(ctx), dl_run.owns_c10,
                      "histories over 3..12 time points (growth: 27..41 from a constructor size of 16, capacities 16->25->38->58), "
                      "bounds in -6..12 (+ halves / thirds and infinitesimals -1,0,1,2 for RDL), several constraints per pair, one "
-                     "pair tightened across levels, both polarities, several enqueues before a drain, creation of constraints and "
+                     "pair tightened across levels, the same cell tightened 2-3 times within one level (directly and through a third point) then popped "
+                     "and re-used, chains built by prepending an edge to 2-3 asserted edges with explanations / conflicts through the new "
+                     "cell and partial re-assertion after the pops (also through the real sat_core), both polarities, several enqueues before a drain, creation of constraints and "
                      "variables in between, pops; non-trivial = distinct dumped states")
 
 
